@@ -196,7 +196,14 @@ func (r *checkRun) nativeValidate(res *unitResult) {
 		exp := expectedLines(s)
 		got := filterCompare(o.lines)
 		ok := len(exp) == len(got) && (s.End != "done" || o.end == "done")
-		if ok {
+		if res.spec.Validate == "verdict" {
+			ok = s.End != "done" || o.end == "done"
+			for _, l := range got {
+				if strings.HasPrefix(l, "ASSERT ") && !strings.HasSuffix(l, " ok") {
+					ok = false
+				}
+			}
+		} else if ok {
 			for k := range exp {
 				if exp[k] != got[k] {
 					ok = false
